@@ -292,7 +292,7 @@ def judge_flux(sc, res):
         if beyond:
             return [("band-subpixel-minor-axis-beyond-box", f"total/(flux·ΣPSF) = {ratio:.4f}, in-footprint fraction {f_in:.4f}: off by {ratio - f_in:+.4f} "
                      f"(tolerance {tol:.4f}); minor axis {bmin:.2f} px and the half-light ellipse reaches outside the oversampled box")]
-    if kind == "hybrid" and ns and 3.5 < max(ns) <= 4.0 and abs(ratio - f_in) <= 0.045 + f_out:
+    if kind == "hybrid" and ns and 2.5 < max(ns) <= 4.0 and abs(ratio - f_in) <= 0.045 + f_out:
         rr = max(r for (w, r, n, e) in comps)
         dmin = min(p["xc"] + 0.5, N - 0.5 - p["xc"], p["yc"] + 0.5, N - 0.5 - p["yc"])
         if dmin < 15 * rr:          # 15 r_eff = σ of the widest mixture component (frac_end), one of those the hybrid renderer truncates at the frame
